@@ -410,6 +410,94 @@ let run_res t : string * string =
     (step "parsed" st ^ Printf.sprintf ";closed:t%d,f%d" (count (close_all st)) (count (close_all st)), "-")
   | _ -> ("-", "-")
 
+
+(* ---------- C09/C10: is the implementation's history a run of the protocol model? ----------
+   The case line carries the scenario and, after "||", what the implementation did: the order
+   in which calls started (+g) and returned (-g:result).  The model accepts the history when it
+   has a run in which every call's steps lie between its two events and the result is the one
+   observed.  The search keeps the set of model states compatible with the history so far and
+   closes it under Protocol.succs (the extracted function proved equal to the step relation). *)
+let conc_limit = 400000
+exception Too_big
+let run_conc t : string * string =
+  let workers = next_int t in
+  let _ = next t in let _ = next t in let _ = next t in let _ = next t in let _ = next t in let _ = next t in
+  let ngo = next_int t in
+  let scripts = Array.make ngo [||] in
+  for g = 0 to ngo - 1 do
+    let nops = next_int t in
+    scripts.(g) <- Array.init nops (fun _ ->
+      match next t with
+      | "w" -> CWrite (nat_of_int (next_int t))
+      | "r" -> CRotate
+      | "c" -> CClose
+      | x -> failwith ("conc op " ^ x))
+  done;
+  match t.rest with
+  | "||" :: obs :: _ ->
+    let hist =
+      match List.filter (fun f -> String.length f > 5 && String.sub f 0 5 = "hist=") (String.split_on_char ';' obs) with
+      | [h] -> Some (List.filter (fun e -> e <> "") (String.split_on_char ',' (String.sub h 5 (String.length h - 5))))
+      | _ -> None in
+    (match hist with
+     | None -> ("ACCEPT", "-")
+     | Some evs ->
+       let norm (s : pstate) = { s with processed = []; written = []; log = [] } in
+       let key (s : pstate) = Marshal.to_string s [Marshal.No_sharing] in
+       let s0 = norm (init (List.init ngo (fun _ -> [])) (nat_of_int workers)) in
+       let set : (string, pstate) Hashtbl.t ref = ref (Hashtbl.create 1024) in
+       Hashtbl.replace !set (key s0) s0;
+       let maxset = ref 1 in
+       let close () =
+         let stack = Stack.create () in
+         Hashtbl.iter (fun _ s -> Stack.push s stack) !set;
+         while not (Stack.is_empty stack) do
+           let s = Stack.pop stack in
+           List.iter (fun (_, s') ->
+             let s' = norm s' in let k = key s' in
+             if not (Hashtbl.mem !set k) then begin
+               Hashtbl.replace !set k s'; Stack.push s' stack;
+               if Hashtbl.length !set > conc_limit then raise Too_big
+             end) (succs s)
+         done;
+         if Hashtbl.length !set > !maxset then maxset := Hashtbl.length !set in
+       let remap f =
+         let n = Hashtbl.create 1024 in
+         Hashtbl.iter (fun _ s -> match f s with Some s' -> Hashtbl.replace n (key s') s' | None -> ()) !set;
+         set := n in
+       let upd_caller (s : pstate) g f =
+         { s with callers = List.mapi (fun i c -> if i = g then f c else c) s.callers } in
+       let pos = Array.make ngo 0 in
+       let verdict = ref "" in
+       (try
+         List.iter (fun e ->
+           if !verdict = "" then begin
+             let body = String.sub e 1 (String.length e - 1) in
+             if e.[0] = '+' then begin
+               let g = int_of_string body in
+               let op = scripts.(g).(pos.(g)) in
+               remap (fun s -> Some (upd_caller s g (fun c -> { c with c_script = [op] })))
+             end else begin
+               let g, r = (match String.split_on_char ':' body with [a; b] -> (int_of_string a, b) | _ -> failwith "hist") in
+               let op = scripts.(g).(pos.(g)) in
+               pos.(g) <- pos.(g) + 1;
+               let want = (match op, r with
+                 | CWrite _, "n" -> [None]
+                 | CWrite _, k -> [Some (nat_of_int (int_of_string k))]
+                 | _, _ -> []) in
+               close ();
+               remap (fun s ->
+                 let c = List.nth s.callers g in
+                 if c.c_pc = CIdle && c.c_script = [] && c.c_results = want
+                 then Some (upd_caller s g (fun c -> { c with c_results = [] })) else None);
+               if Hashtbl.length !set = 0 then
+                 verdict := Printf.sprintf "REJECT:no-model-run-returns-%s-to-goroutine-%d-at-%s" r g e
+             end
+           end) evs
+       with Too_big -> verdict := "TOOBIG");
+       if !verdict = "" then ("ACCEPT", "-") else if !verdict = "TOOBIG" then ("ACCEPT-UNEXPLORED", "-") else (!verdict, "-"))
+  | _ -> ("-", "-")
+
 (* ---------- main ---------- *)
 let run_line (line : string) : string * string =
   let t = { rest = List.filter (fun s -> s <> "") (String.split_on_char ' ' line) } in
@@ -425,6 +513,7 @@ let run_line (line : string) : string * string =
   | "writer" -> run_writer t
   | "rev" -> run_rev t
   | "res" -> run_res t
+  | "conc" -> run_conc t
   | d -> failwith ("unknown domain " ^ d)
 
 let () =
